@@ -17,5 +17,5 @@ EXPLANATION = (
 
 def check(ctx: Ctx) -> None:
     ctx.model.func("ahbicht.validation.validation.validate_data_element_valuepool")
-    valsweep.report(ctx, ("C17.pool",))
+    ctx.soft(lambda: valsweep.report(ctx, ("C17.pool",)))
     ctx.assume("entry expressions are evaluated by the summarised pipeline (reference semantics)")
